@@ -86,7 +86,8 @@ func (m *MergeCompactionIterator) Next() ([]byte, []byte, error) {
 			if errors.Is(err, pq.Done) {
 				if len(m.valBuf) > 0 {
 					kReduced, vReduced := m.reduce(m.prevKey, m.valBuf, m.ctxBuf)
-					if kReduced != nil && vReduced != nil {
+					// a reduction to (nil, nil) means "skip this key", a nil value alone is a tombstone to be kept
+					if kReduced != nil || vReduced != nil {
 						// clear the buffer, so we don't infinite loop on the last elements
 						m.valBuf = m.valBuf[:0]
 						return kReduced, vReduced, nil
@@ -98,11 +99,13 @@ func (m *MergeCompactionIterator) Next() ([]byte, []byte, error) {
 			}
 		}
 
+		var toReturn bool
 		var toReturnKey, toReturnVal []byte
 		//we have to accumulate the whole sequence
 		if m.prevKey != nil && m.comp.Compare(k, m.prevKey) != 0 {
 			kReduced, vReduced := m.reduce(m.prevKey, m.valBuf, m.ctxBuf)
-			if kReduced != nil && vReduced != nil {
+			if kReduced != nil || vReduced != nil {
+				toReturn = true
 				toReturnKey = kReduced
 				toReturnVal = vReduced
 			}
@@ -114,7 +117,7 @@ func (m *MergeCompactionIterator) Next() ([]byte, []byte, error) {
 		m.valBuf = append(m.valBuf, v)
 		m.ctxBuf = append(m.ctxBuf, c)
 
-		if toReturnKey != nil && toReturnVal != nil {
+		if toReturn {
 			return toReturnKey, toReturnVal, nil
 		}
 	}
